@@ -222,7 +222,7 @@ def d3(prog, ctx):
     f = prog.func(AP, "AlignmentCollector.forward_alignments")
     loops = [l for l in walk_no_nested(f) if isinstance(l, ast.For) and src(l.iter) == "split_regions"]
     if len(loops) != 1:
-        ctx.fail("D3", f, f._qualname, "loop over split_regions", "no single loop over all split regions")
+        ctx.undecided("D3", f, f._qualname, "found %d loops over split_regions, expected one" % len(loops))
         return
     l = loops[0]
     jumps = [n for n in ast.walk(l) if isinstance(n, (ast.Continue, ast.Break, ast.Return))]
@@ -244,20 +244,24 @@ def d3(prog, ctx):
     single = [st for st in ast.walk(f) if isinstance(st, ast.Expr) and isinstance(st.value, ast.Yield)
               and "alignment_storage.get_alignments()" in src(st)]
     if len(single) != 1:
-        ctx.fail("D3", f, f._qualname, "single-region branch", "the unsplit branch does not forward the whole storage")
+        ctx.undecided("D3", f, f._qualname, "the unsplit branch (yield of process_*(..., alignment_storage.get_alignments())) was not found")
     else:
         ctx.ok("D3", "%s:%d" % (AP, single[0].lineno), "unsplit region forwards the whole storage")
     p = prog.func(AP, "AlignmentCollector.process")
     tail = p.body[-1]
     okt = isinstance(tail, ast.If) and src(tail.test) == "alignment_storage.region" and "self.forward_alignments(alignment_storage)" in src(tail)
-    if not okt:
+    if not okt and not (isinstance(tail, ast.If) and "forward_alignments" in src(tail)):
         ctx.fail("D3", p, p._qualname, "final flush", "the last region is not flushed after the record loop")
+    elif not okt:
+        ctx.undecided("D3", tail, p._qualname, "the final flush has an unexpected form: %s" % src(tail)[:80])
     else:
         ctx.ok("D3", "%s:%d" % (AP, tail.lineno), "final region flushed after the loop")
     # flush before reset inside the loop
     loop = [l for l in p.body if isinstance(l, ast.For)][0]
     na = [i for i in loop.body if isinstance(i, ast.If) and "alignment_is_not_adjacent" in src(i.test)]
-    if len(na) != 1 or not (src(na[0].body[-1]) == "alignment_storage.reset()" and "forward_alignments" in src(na[0].body[0])):
+    if len(na) != 1:
+        ctx.undecided("D3", loop, p._qualname, "the region-boundary test (alignment_is_not_adjacent) was not found in the record loop")
+    elif not (src(na[0].body[-1]) == "alignment_storage.reset()" and "forward_alignments" in src(na[0].body[0])):
         ctx.fail("D3", loop, p._qualname, "region switch", "storage is not forwarded before it is reset at a region boundary")
     else:
         ctx.ok("D3", "%s:%d" % (AP, na[0].lineno), "storage forwarded, then reset, at every region boundary")
@@ -277,7 +281,9 @@ def d4(prog, ctx):
         cat = dotted(adds[0].args[0]).split(".")[-1] if len(adds) == 1 and len(node.body) == 1 else "?"
         got.append((src(node.test), cat))
         node = node.orelse[0] if len(node.orelse) == 1 and isinstance(node.orelse[0], ast.If) else None
-    if got != want:
+    if not got or any(c_ == "?" for _t, c_ in got):
+        ctx.undecided("D4", first, p._qualname, "the statistics if/elif chain at the top of the record loop was not found (found %s)" % got)
+    elif got != want:
         ctx.fail("D4", first, p._qualname, str(got), "the statistics chain must count each record in exactly one of secondary / "
                  "supplementary / primary(mapped), as an if/elif chain at the top of the record loop (found %s)" % got)
     else:
@@ -606,7 +612,7 @@ def d6(prog, ctx):
                     pass
             _walk_path(t, p, top_loops)
         except _Unproved as e:
-            fail(p.exit_node, src(p.exit_node), "cannot follow the region list on path %s: %s" % (p.describe()[:120], e))
+            ctx.undecided("D6", p.exit_node, f._qualname, "cannot follow the region list on path %s: %s" % (p.describe()[:120], e))
             continue
         if t.infeasible:
             continue
@@ -651,7 +657,7 @@ def d6(prog, ctx):
                     k = len(t.appends)
                     _walk_path(t, p2, [])
                 except _Unproved as e:
-                    fail(lp, "loop at line %d" % lp.lineno, "cannot follow the region list through two iterations: %s" % e)
+                    ctx.undecided("D6", lp, f._qualname, "cannot follow the region list through two iterations of the loop at line %d: %s" % (lp.lineno, e))
                     continue
                 if t.infeasible or len(t.appends) <= k or k == 0:
                     continue
@@ -894,8 +900,9 @@ def d9(prog, ctx):
     meths = prog.methods_of(cls, inherited=False)
     calls = {}
     for name, f in meths.items():
-        calls[name] = {c.func.attr for c in walk_no_nested(f) if isinstance(c, ast.Call) and isinstance(c.func, ast.Attribute)
-                       and dotted(c.func.value) in ("self", "MultimapResolver") and c.func.attr in meths}
+        # calls of sibling methods, and references to them (a method stored in a table and called through it is a possible callee)
+        calls[name] = {a.attr for a in ast.walk(f) if isinstance(a, ast.Attribute) and isinstance(a.ctx, ast.Load)
+                       and dotted(a.value) in ("self", "MultimapResolver") and a.attr in meths}
 
     def reaches(name, seen=()):
         if name == "find_duplicates":
